@@ -3,7 +3,7 @@
    entries (Model/MapIter.v).  Only statements; every proof is `exact <lemma>`. *)
 From Coq Require Import Permutation Sorted.
 From PV Require Import Lib.Bytes Model.MapIter Gen.MapRangeAudit Proofs.MapIter Proofs.MapIterAudit.
-From PV Require Import Model.CvsEntries Proofs.CvsEntries Gen.EnvReadAudit Proofs.EnvReadAudit.
+From PV Require Import Model.CvsEntries Proofs.CvsEntries Gen.EnvReadAudit Proofs.EnvReadAudit Gen.GlobalsAudit Proofs.GlobalsAudit.
 Import ListNotations.
 Open Scope N_scope.
 
@@ -212,3 +212,11 @@ Example C07_witness :
   /\ range_argmax (fun kv => negb (snd kv =? 3)) snd ex_map = Some ([98], 2)
   /\ range_argmax (fun kv => negb (snd kv =? 3)) snd ex_map' = Some ([98], 2).
 Proof. repeat split; try (vm_compute; reflexivity); vm_compute; discriminate. Qed.
+
+(* round 5: the regenerated list of package-level variables (Gen/GlobalsAudit.v: every `var` of the non-test
+   code with the functions that write it, compared by gen/c07globals.go with audit/globals.json) is fully
+   classified, has the announced length, contains no finding (a variable that survives a run and reaches
+   the output of a later one), and the scanner saw >= 100 variables in >= 60 files *)
+Theorem C07_globals_audit_classified : glob_audit_full.
+Proof. exact glob_audit_classified. Qed.
+Print Assumptions C07_globals_audit_classified.
